@@ -42,6 +42,33 @@ def _lock_decorators(ck, module):
     return out
 
 
+def _mutex_holding_context_managers(ck, module):
+    """Module-level @contextmanager functions that acquire the per-call mutex of their first
+    parameter and yield while holding it (released in a finally / by a with-block)."""
+    out = set()
+    for name, fi in module.functions.items():
+        if not any("contextmanager" in d for d in fi.decorators) or not fi.params:
+            continue
+        body = fi.node
+        takes = [c for c in A.body_calls(body) if A.call_attr(c) == "_mutex_for_invocation" and [A.norm(a) for a in c.args] == [fi.params[0]]]
+        direct = [c for c in A.body_calls(body) if A.call_attr(c) == "acquire" and A.norm(A.call_recv(c)) == fi.params[0]]
+        if not takes and not direct:
+            continue
+        if direct and not takes:
+            name = "mutex:" + name
+        ok = False
+        for n in A.walk_body(body):
+            if isinstance(n, ast.Try) and n.finalbody and any(isinstance(y, (ast.Yield,)) for b in n.body for y in ast.walk(b)) \
+                    and any(isinstance(c, ast.Call) and A.call_attr(c) == "release" for f in n.finalbody for c in ast.walk(f)) \
+                    and any(A.call_attr(c) == "acquire" for c in A.body_calls(body)):
+                ok = True
+            if isinstance(n, ast.With) and any(isinstance(y, ast.Yield) for b in n.body for y in ast.walk(b)):
+                ok = True
+        if ok:
+            out.add(name)
+    return out
+
+
 def check_cache_guarded(ck, cm: CacheModel, rule="C09.R3"):
     ck.rule(rule, "cache guarded-by: every read or write of the mutable MemoryCache slots happens while the cache lock "
                   "is held (with-block or lock-holding decorator on a public method; private helpers only called from "
@@ -106,6 +133,38 @@ def check_cache_guarded(ck, cm: CacheModel, rule="C09.R3"):
             if sites and all(ins or caller in safe for (caller, ins) in sites):
                 safe.add(name)
                 changed = True
+    # one critical section per mutating operation: a method that writes cache state inside
+    # explicit `with self.<lock>` blocks must do all its state accesses in ONE such block
+    # (decisions taken in an earlier section are stale when the next one starts)
+    for name, m in sorted(cm.cls.methods.items()):
+        if name == "__init__" or name in guarded_whole:
+            continue
+        fa = FA(ck, m)
+        regions = [w for w in fa.stmts((ast.With,)) if lock and any(self_attr(i.context_expr, lock) for i in w.items)]
+        if len(regions) < 2:
+            continue
+        def writes_in(w):
+            out = []
+            for n in A.walk_local(w):
+                if isinstance(n, (ast.Assign, ast.AugAssign, ast.Delete)):
+                    ts = n.targets if isinstance(n, (ast.Assign, ast.Delete)) else [n.target]
+                    for t in ts:
+                        b = t.value if isinstance(t, ast.Subscript) else t
+                        if self_attr(b) in cm.mutable_slots:
+                            out.append(n)
+                if isinstance(n, ast.Call) and isinstance(n.func, ast.Attribute):
+                    if self_attr(n.func.value) in cm.mutable_slots and n.func.attr in ("append", "remove", "popleft", "pop", "clear", "appendleft"):
+                        out.append(n)
+                    if isinstance(n.func.value, ast.Name) and n.func.value.id == "self" and n.func.attr in (cm.evict.name, cm.insert.name, cm.mark_used.name, "_put_ref"):
+                        out.append(n)
+            return out
+        wr = [w for w in regions if writes_in(w)]
+        ok1 = len(wr) <= 1
+        ck.ob(rule, m.qual + "::one-critical-section", ok1,
+              "state is updated in a single critical section" if ok1 else
+              "%s updates cache state in %d separate critical sections: the eviction / room decisions of the first are stale when the second "
+              "inserts (another thread can put the same key in between: the size is counted twice and the key is queued twice)" % (name, len(wr)),
+              A.loc(m, wr[1] if len(wr) > 1 else m.node))
     for name, acc in sorted(unguarded_access.items()):
         m = cm.cls.methods[name]
         if not acc and not any(callee for (callee, ins) in calls_to[name]):
@@ -166,7 +225,15 @@ def check(ck):
           "the per-call mutex is not keyed by (qualified_name, arg_hash) of the invocation: distinct calls serialise or equal calls do not", mi.where(r))
     rl = FA(ck, RL + ".memento_run_local")
     inv = rl.fi.params[1] if len(rl.fi.params) > 1 else "fn_reference_with_args"
-    ws = _with_blocks(rl, lambda e: isinstance(e, ast.Call) and A.call_attr(e) == "_mutex_for_invocation" and [A.norm(a) for a in e.args] == [inv])
+    holders = {"_mutex_for_invocation"} | _mutex_holding_context_managers(ck, mod)
+    mutex_wrappers = {h[6:] for h in holders if h.startswith("mutex:")}
+    def holds_own_mutex(e):
+        if isinstance(e, ast.Call) and A.call_attr(e) in holders and [A.norm(a) for a in e.args] == [inv]:
+            return True
+        if isinstance(e, ast.Call) and A.call_attr(e) in mutex_wrappers and len(e.args) == 1:
+            return holds_own_mutex(e.args[0])
+        return False
+    ws = _with_blocks(rl, holds_own_mutex)
     if len(ws) != 1:
         ck.ob(R2, rl.key(None, "critical-section"), False, "memento_run_local does not hold the per-call mutex of its own invocation", rl.where())
     else:
@@ -178,8 +245,13 @@ def check(ck):
             ck.ob(R2, rl.key(None, "in-section-" + name), ok, "%s happens inside the per-call critical section" % name if ok else
                   ("%s is not called at all" % name if not cs else
                    "%s happens outside the per-call critical section: two threads can both miss and both run the body" % name), rl.where(cs[0] if cs else None))
-        # the re-check precedes the body inside the section
-        gm = rl.nodes_all([c for c in rl.calls("get_memento")])
+        # the re-check is unconditional and precedes the body inside the section
+        for c in rl.calls("get_memento"):
+            okc = rl.unconditional(c)
+            ck.ob(R2, rl.key(c, "recheck-unconditional"), okc, "the re-check under the mutex is unconditional" if okc else
+                  "the store re-check under the mutex is skipped under a condition (`%s`): a caller that arrives after the first one released "
+                  "the mutex runs the body a second time" % A.short(rl.pm.get(c), 60), rl.where(c))
+        gm = rl.nodes_all([c for c in rl.calls("get_memento") if rl.unconditional(c)])
         bd = rl.nodes_all(rl.calls("_filter_call"))
         okp = bool(gm) and all(rl.cfg.must_pass(gm, i) for i in bd)
         ck.ob(R2, rl.key(None, "recheck-before-body"), okp, "the store is re-checked under the mutex before the body runs" if okp else
